@@ -1,4 +1,5 @@
 import Acra.Drv.SpecFTI
+import Acra.Drv.SpecFTI2
 namespace Acra.Drv
-def specFuncs : List Func := specFuncsFTI
+def specFuncs : List Func := specFuncsFTI ++ specFuncsFTI2
 end Acra.Drv
